@@ -22,7 +22,11 @@ def run_rules(prop, repo, tier="quick", seed=0):
     program = Program(repo)
     ctx = Ctx(prop, program, tier=tier, seed=seed)
     mod.run(ctx)
-    ctx.check_floors()
+    from .report import split_known as _sk
+    if not _sk(ctx)[1]:
+        # floors guard against a rule silently losing its subject; when the run
+        # already reports a new violation the verdict is that violation
+        ctx.check_floors()
     return ctx, mod
 
 
